@@ -366,7 +366,7 @@ def main():
     if tier == "quick" and "VERIF_RUN_TIMEOUT" not in os.environ:
         # a quick run of either side takes seconds; an implementation that no longer terminates on some input must not hold the
         # check for a quarter of an hour (the lines it never answered count as failures)
-        RUN_TIMEOUT = 120
+        RUN_TIMEOUT = 300
     seed = int(os.environ.get("VERIF_SEED", "20260930") or 0)
     t_start = time.time()
     mod = importlib.import_module("props." + pid.lower())
